@@ -88,11 +88,11 @@ def evaluate(wd, cases, timeout, batch=20000, parallel=8, keep_raw=False):
     if not cases:
         return {}
     wd.write("CoapWireEval.cfg", "")
-    # big cases (65 kB byte strings) first, two per JVM: they take seconds each
+    # big cases (65 kB byte strings) first, one per JVM: they take seconds each
     big = [c for c in cases if sum(len(x) for x in c if isinstance(x, list)) > 20000 or any(len(o[1]) > 20000 for x in c if isinstance(x, list) for o in x if isinstance(o, list))]
     bigids = set(c[1] for c in big)
     small = [c for c in cases if c[1] not in bigids]
-    chunks = [big[i : i + 2] for i in range(0, len(big), 2)] + [small[i : i + batch] for i in range(0, len(small), batch)]
+    chunks = [big[i : i + 1] for i in range(0, len(big))] + [small[i : i + batch] for i in range(0, len(small), batch)]
     out = {}
     with ThreadPoolExecutor(max_workers=parallel) as ex:
         for vals in ex.map(lambda t: _eval_one(wd, t[0], t[1], timeout, keep_raw), enumerate(chunks)):
@@ -417,7 +417,10 @@ def work(rep, args):
         lap("tlc_eval_messages")
 
         # ---- 3. byte strings: the serialisations themselves and their mutations -----
-        new = set(b for b in bases if b not in dec_expected)
+        # (serialisations beyond 4096 bytes -- the 65803/65804-byte values -- are
+        # parsed back in the message direction only: decode(encode(m)) against m,
+        # with Parse(EncMsg(m)) = m certified by TLC)
+        new = set(b for b in bases if b not in dec_expected and len(b) <= 4096)
         small = sorted(set(b for b in bases if len(b) <= 700))
         rng.shuffle(small)
         short = [b for b in small if len(b) <= 48]
@@ -435,7 +438,8 @@ def work(rep, args):
                 if x not in dec_expected:
                     new.add(x)
         new = sorted(new)
-        dres = evaluate(wd, [["dec", i, list(b)] for i, b in enumerate(new)], tmo, batch=15000 if quick else 40000, keep_raw=True)
+        rng.shuffle(new)  # long and short datagrams evenly over the batches
+        dres = evaluate(wd, [["dec", i, list(b)] for i, b in enumerate(new)], tmo, batch=8000 if quick else 40000, keep_raw=True)
         for i, b in enumerate(new):
             dec_expected[b] = dres[i]
         del dres
